@@ -237,12 +237,14 @@ pub fn plan(tier: Tier) -> Vec<Phase> {
     let c = corpus(tier);
     let (multi, arbitrary, large) = if tier == Tier::Quick { (150_000, 60_000, 120_000) } else { (3_000_000, 1_000_000, 3_000_000) };
     let runs = if tier == Tier::Quick { 1_200 } else { 20_000 };
+    let unicode = if tier == Tier::Quick { 40_000 } else { 800_000 };
     vec![
         Phase { name: "single-faults", count: c.total, exhaustive: true },
         Phase { name: "multi-faults", count: multi, exhaustive: false },
         Phase { name: "arbitrary-bytes", count: arbitrary, exhaustive: false },
         Phase { name: "large-files", count: large, exhaustive: false },
         Phase { name: "long-runs", count: runs, exhaustive: false },
+        Phase { name: "unicode-heavy", count: unicode, exhaustive: false },
     ]
 }
 
@@ -430,6 +432,81 @@ pub fn generate(tier: Tier, phase: &str, idx: u64, r: &mut Prng) -> Sc {
                     data: Blob(data),
                     origin: format!("{}:multi:{}", f.name, kinds.join("+")),
                 },
+                transport,
+            }
+        }
+        "unicode-heavy" => {
+            // valid files whose free-text fields are kilobytes of multi-byte characters (2-, 3- and 4-byte,
+            // so that any byte offset is likely to fall inside a character), with one early fault in a record:
+            // whatever slices or measures the remaining text by bytes meets a character boundary problem
+            let format = Format::ALL[(idx % 7) as usize];
+            let mut model = gen::gen_file(r, format, 4);
+            let glyphs = ["\u{e9}", "\u{3b2}", "\u{4e2d}", "\u{1F9EC}", "\u{fc}", "\u{20ac}", "x"];
+            let which = r.usize_below(model.records.len());
+            let n = r.range(600, 1800);
+            let mut text = String::new();
+            for _ in 0..r.range(0, 3) {
+                text.push('a'); // shift the phase of the run
+            }
+            for _ in 0..n {
+                text.push_str(*r.pick(&glyphs));
+            }
+            match format.family() {
+                "transfac" => {
+                    let rec = &mut model.records[which];
+                    let line = format!("{}  {}", *r.pick(&["CC", "DE", "BF", "NA"]), text);
+                    if r.chance(1, 2) {
+                        rec.pre.push(line);
+                    } else {
+                        rec.post.push(line);
+                    }
+                }
+                "uniprobe" => model.records[which].id = format!("{} {}", model.records[which].id, text),
+                _ => model.records[which].desc = Some(text),
+            }
+            let mut data = model.render();
+            // one fault near the start of the chosen record (or of the file)
+            let starts: Vec<usize> = {
+                let mut v = vec![0usize];
+                let mut acc = 0usize;
+                for rec in &model.records {
+                    acc += super::model::FileModel { format, version: None, records: vec![rec.clone()] }.render().len();
+                    v.push(acc.min(data.len()));
+                }
+                v
+            };
+            let base = starts[which.min(starts.len() - 1)].min(data.len());
+            let kind = match r.below(5) {
+                0 => {
+                    // an unsupported / malformed line right at the start of the record
+                    let junk: &[u8] = *r.pick(&[&b"ZZ  x\n"[..], b"??\n", b"1 2 x\n", b"Q:\t1\n", b"[\n"]);
+                    let at = base.min(data.len());
+                    for (k, b) in junk.iter().enumerate() {
+                        data.insert(at + k, *b);
+                    }
+                    "junk-line"
+                }
+                1 if !data.is_empty() => {
+                    let o = (base + r.usize_below(60)).min(data.len() - 1);
+                    data[o] = *r.pick(&SUBST);
+                    "early-substitution"
+                }
+                2 if !data.is_empty() => {
+                    let o = (base + r.usize_below(60)).min(data.len() - 1);
+                    data.remove(o);
+                    "early-deletion"
+                }
+                3 => "intact",
+                _ => {
+                    let o = (base + r.usize_below(60)).min(data.len());
+                    data.insert(o, *r.pick(&SUBST));
+                    "early-insertion"
+                }
+            };
+            let class = r.below(96);
+            let transport = gen::gen_transport(r, &data, class);
+            Sc {
+                input: Input::Bytes { format, data: Blob(data), origin: format!("unicode:{}", kind) },
                 transport,
             }
         }
